@@ -66,3 +66,10 @@ func Verif_C01_payout_burns_recorded_share_only() {
 	verif_assert(verifStateRemains(after, true, types.Account{}).Equal(burnRem.Sub(sdk.NewDecFromInt(burned))), "the recorded burn share is reduced by exactly what was burned (kept in full when the burn failed)")
 	verif_reach("payout checked")
 }
+
+
+// the supply part of one whole distributor block (the C03 harness without its refusing-account variants, which are C03's subject)
+func Verif_C01_block_supply() {
+	vC03Refusing = false
+	Verif_C03_block_keeps_books()
+}
